@@ -118,6 +118,7 @@ func init() {
 			c.floor("UNIT", 12)
 			c.runArgSwap("ARGSWAP", pkgs, baseIn("light.go", "focus_point.go", "material.go"), nil)
 			c.floor("ARGSWAP", 40)
+			c.floor("ARGROLE", 40)
 			// area-proportional selection of a triangle / sub-light
 			c.runCumTab("CUMTAB", c.libPkgs()[3:4], nil)
 			c.floor("CUMTAB", 2)
